@@ -44,7 +44,7 @@ def main():
                 rc = 1
     finally:
         subprocess.run(["git", "-C", "/repo", "checkout", "--", "."])
-        subprocess.run(["git", "-C", "/repo", "clean", "-fdq", "tests", "mutant"], capture_output=True)
+        subprocess.run(["git", "-C", "/repo", "clean", "-fdq"], capture_output=True)
     return rc
 
 
